@@ -483,7 +483,7 @@ VOP(mz_msg)
 	} else if (method == "log::SetLogPosition") {
 		p->Set("log_position", (sndEp ? std::max(now, sndEp->GetLocalLogPosition()) : now) + n);
 	} else if (method == "icinga::Hello") {
-		p->Set("version", 21300 + (n % 90)); p->Set("capabilities", (double)(n % 2 + 1));
+		p->Set("version", 21300 + (n % 90)); p->Set("capabilities", (double)((sndEp ? sndEp->GetCapabilities() : 0) % 2 + 1));   // always differs from the current value
 	} else if (method == "pki::RequestCertificate") {
 		pki = true;
 		RestorePki();
